@@ -9,16 +9,18 @@ SERVICE_POOL = [pref.TTX_B, pref.VPS, pref.CC625, pref.WSS625, pref.TTX_B_L10, p
 
 # shapes that run into a recorded finding (see NOTES.md); value True = steer the generator away from it
 DEFAULT_SKIP = {
-    'partial_message': True,        # F2 assert in vbi_proxy_msg_read_idle/is_idle on a message that arrives in two pieces
-    'hdr_len_small': True,          # F10 header length < 8: recv() with a length of 2^32-1, then assert in vbi_proxy_msg_is_idle
-    'hdr_len_big': True,            # F11 header length > sizeof(VBIPROXY_MSG): assert in vbi_proxy_msg_handle_read
-    'strict_oob': True,             # F4 SERVICE_REQ strict is not clamped
-    'unheld_return': True,          # F5 NOTIFY(TOKEN) from a client that does not hold the token -> assert in get_token_owner
-    'ignore_reclaim': True,         # F14 token taken from a holder whose reclaim is pending (library clients answer reclaims, no prio > background)
-    'lib_ioctl': True,              # F12 vbi_proxy_client_device_ioctl() writes one byte past its message buffer (client library)
-    'update_during_token_wait': True,  # F13 TOKEN_IND arriving inside vbi_capture_update_services() makes the library drop the connection
+    # repaired in /repo (see NOTES.md section 4, REPAIRED.json): the generator exercises these regions again
+    'partial_message': False,       # F2 assert in vbi_proxy_msg_read_idle/is_idle on a message that arrives in two pieces
+    'hdr_len_small': False,         # F10 header length < 8: recv() with a length of 2^32-1
+    'hdr_len_big': False,           # F11 header length > sizeof(VBIPROXY_MSG): assert in vbi_proxy_msg_handle_read
+    'strict_oob': False,            # F4 SERVICE_REQ strict was not clamped
+    'unheld_return': False,         # F5 NOTIFY(TOKEN) from a client that does not hold the token -> assert in get_token_owner
+    'lib_ioctl': False,             # F12 vbi_proxy_client_device_ioctl() wrote one byte past its message buffer (client library)
+    'dyn_params': False,            # F6/F7 device line counts that follow the services (assert line_count < max_lines; idx < max_lines)
+    # still open
     'thread_start_race': True,      # F9 acquisition thread runs before max_lines is set when the first frame arrives at once
-    'dyn_params': True,             # F6/F7 device line counts that follow the services (assert line_count < max_lines; idx < max_lines)
+    'ignore_reclaim': True,         # F14 token taken from a holder whose reclaim is pending (library clients answer reclaims, no prio > background)
+    'update_during_token_wait': True,  # F13 TOKEN_IND arriving inside vbi_capture_update_services() makes the library drop the connection
 }
 
 
